@@ -512,21 +512,22 @@ func init() {
 		Instances: func(tier string) []*Instance {
 			tb := "storage/table"
 			r := []*Instance{
-				{Pkg: tb, Func: "VH_C07_restore", Args: []int64{0}, Unwind: 64},
-				{Pkg: tb, Func: "VH_C07_restore", Args: []int64{1}, Unwind: 64},
-				{Pkg: tb, Func: "VH_C07_restore", Args: []int64{2}, Unwind: 64},
+				{Pkg: tb, Func: "VH_C07_restore", Args: []int64{0, 0}, Unwind: 64},
+				{Pkg: tb, Func: "VH_C07_restore", Args: []int64{1, 0}, Unwind: 64},
+				{Pkg: tb, Func: "VH_C07_restore", Args: []int64{2, 0}, Unwind: 64},
+				{Pkg: tb, Func: "VH_C07_restore", Args: []int64{2, 2048}, Unwind: 64},
 				{Pkg: "storage/table/fsm", Func: "VH_C07_stream", Args: []int64{2}, Unwind: 64},
 				{Pkg: "storage/table/fsm", Func: "VH_C07_pointintime", Unwind: 64, EngineOnly: true},
 				{Pkg: tb, Func: "VH_C07_vacuity", Expect: "violated"},
 			}
 			if tier == "thorough" {
-				r = append(r, &Instance{Pkg: tb, Func: "VH_C07_restore", Args: []int64{3}, Unwind: 64})
+				r = append(r, &Instance{Pkg: tb, Func: "VH_C07_restore", Args: []int64{3, 0}, Unwind: 64})
 			}
 			return r
 		},
 		Covers: map[string][]string{"VH_C07_restore": {"end", "threshold-on-first-record"}, "VH_C07_stream": {"end"}, "VH_C07_pointintime": {"end", "old", "new"}},
 		Bounds: map[string]string{
-			"quick":    "streams of 0..2 records (PUT commands with arbitrary 1-byte keys and values, in key order) plus the final index-carrying command, restored into an empty table with an arbitrary 64-bit MaxInMemLogSize (incl. 0), so the batch threshold falls on every record position; declared index 1..64; production: FSM.Lookup(SnapshotRequest) / commandSnapshot / writeCommand over an arbitrary table of 0..2 pairs (keys 1..2 bytes, values 0..1 bytes, arbitrary bookkeeping): exactly the pairs in order and the applied index; point in time (engine only): one put applied concurrently with the production of a stream over 0..1 pairs, every interleaving of their database operations: the stream is the table at exactly the index it declares",
+			"quick":    "streams of 0..2 records (PUT commands with arbitrary 1-byte keys and values, in key order) plus the final index-carrying command, restored into an empty table with an arbitrary 64-bit MaxInMemLogSize (incl. 0), so the batch threshold falls on every record position; declared index 1..64; one stream whose first value has the maximum accepted size (2 MiB); production: FSM.Lookup(SnapshotRequest) / commandSnapshot / writeCommand over an arbitrary table of 0..2 pairs (keys 1..2 bytes, values 0..1 bytes, arbitrary bookkeeping): exactly the pairs in order and the applied index; point in time (engine only): one put applied concurrently with the production of a stream over 0..1 pairs, every interleaving of their database operations: the stream is the table at exactly the index it declares",
 			"thorough": "0..3 records",
 		},
 		Outside:     "Pebble's snapshot isolation itself (model M1); interleavings finer than one database operation; the chunk transport and file framing (C18), Manager.Restore's shard start / leader wait / catalogue switch (C14), retry timing, the backup manifest's md5 check, large values",
